@@ -521,3 +521,19 @@ define i32* @f(i32* %p) {
   %c = getelementptr i32, i32* %a, i64 zext (i32 ptrtoint (i32* @x to i32) to i64)
   ret i32* %c
 }
+;;; ATOM inst/funclets-unnamed
+declare i32 @__CxxFrameHandler3(...)
+declare void @may_throw()
+define void @f() personality i8* bitcast (i32 (...)* @__CxxFrameHandler3 to i8*) {
+  invoke void @may_throw() to label %1 unwind label %2
+1:
+  ret void
+2:
+  %3 = catchswitch within none [label %4] unwind label %6
+4:
+  %5 = catchpad within %3 []
+  catchret from %5 to label %1
+6:
+  %7 = cleanuppad within none []
+  cleanupret from %7 unwind to caller
+}
